@@ -11,6 +11,6 @@ inductive TT
   | SCRIPT | RAW | TEXT | MOVEMENT | MART | MAPSCRIPTS | FORMAT | VAR | FLAG | DEFEATED
   | TRUE | FALSE | IF | ELSE | ELSEIF | DO | WHILE | BREAK | CONTINUE | SWITCH | CASE
   | DEFAULT | GLOBAL | LOCAL | PORYSWITCH | CONST | VALUE | MOVES
-  deriving DecidableEq, Repr, Inhabited, BEq
+  deriving DecidableEq, Repr, Inhabited
 
 end Pory
